@@ -151,6 +151,9 @@ pub struct HistCfg {
     /// docstore_compression (lz4 <-> none): segments written with different codecs coexist and are merged
     #[serde(default)]
     pub codec_switch: bool,
+    /// SimDir only: schedule jitter (short pseudo-random pauses before storage operations of the background threads)
+    #[serde(default)]
+    pub jitter: u16,
 }
 pub fn cfg_strategy(dirs: &'static [DirKind]) -> impl Strategy<Value = HistCfg> {
     (
@@ -162,8 +165,9 @@ pub fn cfg_strategy(dirs: &'static [DirKind]) -> impl Strategy<Value = HistCfg> 
         prop::bool::weighted(0.3),
         prop::bool::weighted(0.25),
         prop::bool::weighted(0.3),
+        prop_oneof![2 => Just(0u16), 1 => 1u16..u16::MAX],
     )
-        .prop_map(|(threads, flush_every, policy, sorted, dir, tiny_blocks, short_writes, codec_switch)| HistCfg { threads, flush_every, policy, sorted, dir, tiny_blocks, short_writes, codec_switch })
+        .prop_map(|(threads, flush_every, policy, sorted, dir, tiny_blocks, short_writes, codec_switch, jitter)| HistCfg { threads, flush_every, policy, sorted, dir, tiny_blocks, short_writes, codec_switch, jitter })
 }
 
 pub struct Fields {
@@ -301,6 +305,9 @@ impl Env {
                 let sd = sim.unwrap_or_default();
                 if cfg.short_writes {
                     sd.set_write_limit(1000);
+                }
+                if cfg.jitter != 0 {
+                    sd.set_jitter(cfg.jitter as u64);
                 }
                 let ix = Index::create(sd.clone(), schema, settings).or_fail("INFRA:create")?;
                 (DirHandle::Sim(sd), ix)
